@@ -469,9 +469,9 @@ theorem treeEq_resolves_partial (st st' : Store) (env : Go.Env) (hnd : Go.RIso.N
     RESOLVED ON ITS OWN (same options, base URI and fuel), have the same draft and Loader log and accept the same
     instances: Spec results that agree up to the order of the evaluated-property list, the same verdict, with every
     amount of fuel.  No hypothesis on `$ref` / `$dynamicRef`.
-    PARTIAL: (i) the resolution is self-contained (`NoDocs`: documents fetched through a Loader are not covered — for
-    CloneSchemas they are, `C20.clone_validates_same_docs`); (ii) that `Resolve` of the second tree returns normally is
-    a hypothesis here (`h₂`); it follows from `Resolve` of the first one returning normally when checkStructure accepts
+    PARTIAL: (i) the resolution is self-contained (`NoDocs`; with documents fetched through a Loader:
+    `roundtrip_tree_meaning_resolved_docs`, as `C20.clone_validates_same_docs` for CloneSchemas); (ii) that
+    `Resolve` of the second tree returns normally is a hypothesis here (`h₂`); it follows from `Resolve` of the first one returning normally when checkStructure accepts
     the second tree (`treeEq_resolves_partial`). -/
 theorem treeEq_meaning_resolved_partial (st st' : Store) (env : Go.Env) (hnd : Go.RIso.NoDocs env)
     (hk : Go.RPerm.StoreKeysNodup st) (hs : st.size ≤ 1000000000) (hs' : st'.size ≤ 1000000000) {a b : NodeId} {d : Nat}
@@ -689,6 +689,9 @@ theorem roundtrip_tree_meaning_resolved_docs (st : Store) (id : NodeId) (j : Jso
     EACH RESOLVED ON ITS OWN: `Resolve` of the tree read back returns normally whenever `Resolve` of the original does
     (`roundtrip_tree_resolves`; that checkStructure accepts the tree read back is `unmarshal_is_tree` /
     `roundtrip_tree_is_tree`, derived from the model of UnmarshalJSON — the counterpart of `C20.clone_is_tree`);
+    with documents fetched through a Loader: `roundtrip_tree_meaning_resolved_docs` (a Loader universe shared by both
+    sides, present unchanged in the store the schema is read back into, disjoint from the tree); the statement is
+    directional (original resolves ⇒ tree read back resolves; see `treeEq_resolves_partial`, DIRECTION);
     the evaluator-level corollary (`Go.validateFuel`) is stated for reference-free trees
     only (`treeEq_validate_same_partial`); `treeEq_marshal` is the corresponding statement for MarshalJSON;
   * nil children (`null` elements of schema lists / maps come back as nil pointers, a nil `*Schema` field that is
